@@ -263,6 +263,10 @@ def w_terms(tier: str) -> list[Any]:
             if k >= 2:
                 ts.append(("plus", list(combo)))
                 ts.append(("sum", list(combo)))
+    for a, b, c, d in ((("fixed", 1), ("incr", 0, 2, 100), ("fixed", 0.5), ("fixed", 30)),
+                       (("exp", 1, 2, 60, 0), ("random", 0.5, 1.5), ("fixed", 2), ("incr", 1, 2, 10))):
+        for op in ("derived_base", "derived_first", "derived_second", "sum_shared"):
+            ts.append((op, [a, b, c, d]))
     ts.append(("combine", []))
     ts.append(("combine", [("chain", [("fixed", 1), ("random", 0, 1)]), ("exp", 1, 2, 60, 0)]))
     ts.append(("chain", [("combine", [("fixed", 1), ("random", 0, 1)]), ("exp", 1, 2, 60, 0)]))
@@ -318,6 +322,17 @@ def w_build(t: Any) -> Any:
         return acc
     if op == "sum":
         return sum([w_build(x) for x in t[1]])
+    if op in ("derived_base", "derived_first", "derived_second", "sum_shared"):
+        # one combined strategy is built first and then used as the left operand of further sums (base = a + b;
+        # first = base + c; second = base + d) or handed to sum(): every derived value stands for its own parts only
+        ps = [w_build(x) for x in t[1]]
+        base = ps[0] + ps[1]
+        if op == "sum_shared":
+            sum([base, ps[2]])
+            return base
+        first = base + ps[2]
+        second = base + ps[3]
+        return {"derived_base": base, "derived_first": first, "derived_second": second}[op]
     raise ValueError(op)
 
 
@@ -352,6 +367,9 @@ def w_bounds(t: Any, n: int) -> tuple[float, float]:
     if op in ("combine", "plus", "sum"):
         bs = [w_bounds(x, n) for x in t[1]]
         return (sum(b[0] for b in bs), sum(b[1] for b in bs))
+    if op in ("derived_base", "derived_first", "derived_second", "sum_shared"):
+        bs = [w_bounds(x, n) for x in w_parts(t, n)]
+        return (sum(b[0] for b in bs), sum(b[1] for b in bs))
     raise ValueError(op)
 
 
@@ -361,6 +379,12 @@ def w_parts(t: Any, n: int) -> list[Any] | None:
         return list(t[1])
     if t[0] == "chain":
         return [t[1][min(n, len(t[1]) - 1)]]
+    if t[0] in ("derived_base", "sum_shared"):
+        return list(t[1][:2])
+    if t[0] == "derived_first":
+        return list(t[1][:3])
+    if t[0] == "derived_second":
+        return list(t[1][:2]) + [t[1][3]]
     return None
 
 
